@@ -4,6 +4,7 @@ import Pm.FrameCli
 import Pm.FrameMulti
 import Pm.FrameEx
 import Pm.TwoRunEx
+import Pm.RunXC05Ex
 /-! # C05 — one sick device does not disturb the others
 
 *"While one device is slow, silent, disconnected, refusing connections or emitting garbage, requests from any client whose
@@ -38,7 +39,9 @@ Ranking: frame (done) ▸ concurrency (done) ▸ non-interference of one pass (d
 hypothesis in general, see `C05_noninterference_pass_partial`; discharged for a quiet client phase — requests in flight —
 in `C05_noninterference_inflight_partial`) ▸ any number of such passes (`C05_noninterference_passes_partial`) ▸ stutter (done
 for a device stalled in `expect`) ▸ client input during the run (§5: `C05_noninterference`, `C05_noninterference_passes`: a general
-client phase, with the observers of `B` excluded) ▸ descriptor renaming (not attempted: the counters stay a hypothesis). -/
+client phase, with the observers of `B` excluded) ▸ descriptor renaming (not attempted: the counters stay a hypothesis) ▸ the
+multi-pass statements over the shared runs `runX` of `Pm/RunX.lean` (§6: `C05_noninterference_passes_runX`, …; regex answers
+arbitrary in every pass, `B`'s may differ between the two runs). -/
 namespace Pm.Props.C05
 open Pm Pm.Client Pm.Daemon
 open Pm.Dev2 (Oracle Dev Action cell SAgree QOn QOff ActsOK NoMis Stalled)
@@ -613,5 +616,125 @@ theorem C05_observer_typing_counterexample :
     (cliRec (passes Pm.Daemon.TwoRun.Ex.wb Pm.Daemon.TwoRun.Ex.runS) 1).map (·.toBuf) =
       some (bstr "304 A: state=connected reconnects=000 actions=001 type= hosts=a1\r\n103 Query complete\r\npowerman> ") :=
   ⟨Pm.Daemon.TwoRun.Ex.relH, by decide +kernel, by decide +kernel, by decide +kernel, by decide +kernel⟩
+
+/-! ## 6. Any number of passes over the shared runs `runX`
+
+`C05_noninterference_passes_partial`, `C05_noninterference_passes`, `C05_reply_same_pass` are stated over `passes w ps`
+(`Pm/FrameMulti.lean`): each pass is given with the regex answers recorded for it, and before each pass `withX` *overwrites* the
+pending answers.  Here they are stated over `runX` (`Pm/RunX.lean`, the one definition shared with C02, C03, C06, C11, C15): a pass
+`q : PassX` is the kernel's answers `q.p` and the regex answers `q.rx`; before each pass `feed` *appends* `q.rx` to `pendingX`,
+as the driver does; `stepX w q = (daemonPass (feed w q.rx) q.p).1`.  **The regex answers are arbitrary in every pass.  The two runs
+get different answers: those consumed by the sick device `B` (position `j`) may differ — the pending answers are `xp ++ xB ++ xq`
+in one run and `xp ++ xB' ++ xq` in the other, for some segmentation that is part of the per-pass hypotheses — and those consumed
+by every other device are equal.**
+
+Vocabulary (`Pm/RunXC05.lean`; examples `Pm/RunXC05Ex.lean`): `AlongX H w w' pp` — the per-pass hypothesis `H` holds for every pair of
+passes of `pp`, on the worlds the two runs have reached; `GoodX Q g j` = `PassHyps` (quiet client phase), `GenX Q F j PB` =
+`CliHyps` ∧ `DevHyps` (general client phase), both on the worlds with the answers handed over (`C05_AlongX_spelled`);
+`replyPassRunX` — `replyPassX` for `runX`.  For runs that start with no answer pending the old hypotheses imply the new ones and
+`passes` *is* `runX` (`C05_passes_is_runX`). -/
+
+open Pm.Daemon.TwoRun in
+/-- what the vocabulary is -/
+theorem C05_AlongX_spelled (Q : Bytes → Bool) (F : Nat → Bool) (g j : Nat) (PB : List Pm.Dev2.Plug) (w w' : W) (q q' : PassX)
+    (H : W → W → PassX → PassX → Prop) (r : List (PassX × PassX)) :
+    (AlongX H w w' ((q, q') :: r) ↔ H w w' q q' ∧ AlongX H (stepX w q) (stepX w' q') r) ∧ (AlongX H w w' [] ↔ True) ∧
+    stepX w q = (daemonPass (feed w q.rx) q.p).1 ∧ feed w q.rx = { w with pendingX := w.pendingX ++ q.rx } ∧
+    (GoodX Q g j w w' q q' ↔ ∃ xp xB xB' xq, PassHyps Q g j (feed w q.rx) (feed w' q'.rx) q.p q'.p xp xB xB' xq) ∧
+    (GenX Q F j PB w w' q q' ↔ ∃ xp xB xB' xq, CliHyps F PB (feed w q.rx) (feed w' q'.rx) q.p q'.p ∧
+      DevHyps Q F j (cliPostPoll (feed w q.rx) q.p.acc q.p.envs) (cliPostPoll (feed w' q'.rx) q'.p.acc q'.p.envs) q.p q'.p xp xB xB' xq) :=
+  ⟨Iff.rfl, Iff.rfl, rfl, rfl, Iff.rfl, Iff.rfl⟩
+
+open Pm.Daemon.TwoRun in
+/-- **Any number of passes, requests in flight — over `runX`** (`C05_noninterference_passes_partial` for the shared runs; regex
+    answers arbitrary in every pass, `B`'s may differ between the runs).  As long as no client types anything, the record of a
+    client with nothing queued on the sick device evolves identically pass by pass and every healthy device goes through the
+    same states, however device `j` behaves in the two runs.  (`_partial` for the same reasons: client input during the run is
+    excluded, and so are behaviours of the sick device that consume a different number of descriptors than the healthy one.) -/
+theorem C05_noninterference_passes_runX_partial (Q : Bytes → Bool) (g j : Nat) (w w' : W) (pp : List (PassX × PassX))
+    (hr : PassRel Q g j w w') (h : AlongX (GoodX Q g j) w w' pp) (n : Nat) :
+    PassRel Q g j (runX w ((pp.take n).map (·.1))) (runX w' ((pp.take n).map (·.2))) :=
+  passes_relX Q g j w w' (pp.take n) hr (h.take pp n w w')
+
+/- non-vacuity (`Pm/RunXC05Ex.lean`): the two quiet passes of the example worlds, started with no answer pending; in the first pass
+   `A`'s answer `xA` is fed to both runs and `xB'` in addition to the sick run, in the second pass `xB'` again to the sick run -/
+example : PassRel Ex.Q 1 1 Pm.Daemon.TwoRun.ExC05.w10 Pm.Daemon.TwoRun.ExC05.w20 ∧
+    AlongX (Pm.Daemon.TwoRun.GoodX Ex.Q 1 1) Pm.Daemon.TwoRun.ExC05.w10 Pm.Daemon.TwoRun.ExC05.w20 Pm.Daemon.TwoRun.ExC05.runs ∧
+    Pm.Daemon.TwoRun.ExC05.w10.pendingX = [] ∧ Pm.Daemon.TwoRun.ExC05.w20.pendingX = [] ∧
+    Pm.Daemon.TwoRun.ExC05.runs = [(⟨Ex.pin, Ex.xA⟩, ⟨Ex.pin, Ex.xA ++ Ex.xB'⟩), (⟨Ex.pin2, []⟩, ⟨Ex.pin2, Ex.xB'⟩)] :=
+  ⟨Pm.Daemon.TwoRun.ExC05.relQ, Pm.Daemon.TwoRun.ExC05.alongQ, rfl, rfl, rfl⟩
+
+open Pm.Daemon.TwoRun in
+/-- **Any number of passes, clients typing — over `runX`** (`C05_noninterference_passes` for the shared runs; regex answers
+    arbitrary in every pass, `B`'s may differ between the runs, all others are equal).  `MRel` holds after every prefix of the
+    two runs: pass by pass, every tracked client has the same record and is written the same bytes, every healthy device goes
+    through the same states — however device `j` behaves in the two runs and whatever the tracked clients type, as long as it
+    does not observe `B`.  What is still assumed is what `C05_noninterference_passes` lists. -/
+theorem C05_noninterference_passes_runX (Q : Bytes → Bool) (F : Nat → Bool) (j : Nat) (PB : List Pm.Dev2.Plug)
+    (hQB : ∀ nb, Q nb = false → ∃ pl ∈ PB, pl.node = some nb) (w w' : W) (pp : List (PassX × PassX))
+    (hr : MRel Q F j PB w w') (h : AlongX (GenX Q F j PB) w w' pp) (n : Nat) :
+    MRel Q F j PB (runX w ((pp.take n).map (·.1))) (runX w' ((pp.take n).map (·.2))) :=
+  passes_genX Q F j PB hQB w w' (pp.take n) hr (h.take pp n w w')
+
+open Pm.Daemon.TwoRun in
+/-- **"… within the same time", model level — over `runX`** (`C05_reply_same_pass` for the shared runs): for a client that is
+    tracked at every prefix of the run, the index of the first pass in which its command in progress is completed is the same
+    in both runs. -/
+theorem C05_reply_same_pass_runX (Q : Bytes → Bool) (F : Nat → Bool) (j : Nat) (PB : List Pm.Dev2.Plug)
+    (hQB : ∀ nb, Q nb = false → ∃ pl ∈ PB, pl.node = some nb) (w w' : W) (pp : List (PassX × PassX))
+    (hr : MRel Q F j PB w w') (h : AlongX (GenX Q F j PB) w w' pp) (hi' : Isolation.IdsFresh w') (g : Nat)
+    (hg : ∀ n, (∃ c, cliRec (runX w ((pp.take n).map (·.1))) g = some c ∧ F c.fd = false) ∨
+      (cliRec (runX w ((pp.take n).map (·.1))) g = none ∧ cliRec (runX w' ((pp.take n).map (·.2))) g = none)) :
+    replyPassRunX w' (pp.map (·.2)) g = replyPassRunX w (pp.map (·.1)) g :=
+  reply_same_passX Q F j PB hQB w w' pp hr h hi' g hg
+
+/- non-vacuity (`Pm/RunXC05Ex.lean`): worlds `wa0`, `wb0` (= `wa`, `wb` of §5 with no answer pending), the two passes of §5 with their
+   answers fed pass by pass — in the second pass the sick `B'` asks the regex engine about its garbage again and is answered from
+   what was fed before *that* pass.  The hypotheses hold; after both passes client 1 holds the same record in both runs. -/
+example : Pm.Daemon.TwoRun.MRel Ex.Q Pm.Daemon.TwoRun.Ex.FB 1 Pm.Daemon.TwoRun.Ex.PBx Pm.Daemon.TwoRun.ExC05.wa0 Pm.Daemon.TwoRun.ExC05.wb0 ∧
+    AlongX (Pm.Daemon.TwoRun.GenX Ex.Q Pm.Daemon.TwoRun.Ex.FB 1 Pm.Daemon.TwoRun.Ex.PBx) Pm.Daemon.TwoRun.ExC05.wa0 Pm.Daemon.TwoRun.ExC05.wb0
+      Pm.Daemon.TwoRun.ExC05.runsG ∧
+    Pm.Daemon.TwoRun.ExC05.wa0.pendingX = [] ∧ Pm.Daemon.TwoRun.ExC05.wb0.pendingX = [] ∧
+    Pm.Daemon.TwoRun.ExC05.runsG = [(⟨Pm.Daemon.TwoRun.Ex.q1, Ex.xA⟩, ⟨Pm.Daemon.TwoRun.Ex.q1, Ex.xA ++ Ex.xB'⟩),
+      (⟨Pm.Daemon.TwoRun.Ex.q2, []⟩, ⟨Pm.Daemon.TwoRun.Ex.q2, Ex.xB'⟩)] :=
+  ⟨Pm.Daemon.TwoRun.ExC05.rel0, Pm.Daemon.TwoRun.ExC05.alongG, rfl, rfl, rfl⟩
+example :
+    (cliRec (runX Pm.Daemon.TwoRun.ExC05.wa0 (Pm.Daemon.TwoRun.ExC05.runsG.map (·.1))) 1).map (fun c => (c.toBuf, c.cmd.map (·.pending))) =
+      some (bstr "208 Command in progress\r\n", some 1) ∧
+    (cliRec (runX Pm.Daemon.TwoRun.ExC05.wb0 (Pm.Daemon.TwoRun.ExC05.runsG.map (·.2))) 1).map (fun c => (c.toBuf, c.cmd.map (·.pending))) =
+      some (bstr "208 Command in progress\r\n", some 1) ∧
+    (runX Pm.Daemon.TwoRun.ExC05.wa0 (Pm.Daemon.TwoRun.ExC05.runsG.map (·.1))).devs.map (fun nd => (nd.2.acts.map (·.clientId), nd.2.fromBuf)) =
+      [([1], []), ([2], []), ([], [])] ∧
+    (runX Pm.Daemon.TwoRun.ExC05.wb0 (Pm.Daemon.TwoRun.ExC05.runsG.map (·.2))).devs.map (fun nd => (nd.2.acts.map (·.clientId), nd.2.fromBuf)) =
+      [([1], []), ([2], [1, 2, 3]), ([], [])] ∧
+    Pm.Daemon.TwoRun.replyPassRunX Pm.Daemon.TwoRun.ExC05.wa0 (Pm.Daemon.TwoRun.ExC05.runsG.map (·.1)) 1 = some 0 ∧
+    Pm.Daemon.TwoRun.replyPassRunX Pm.Daemon.TwoRun.ExC05.wb0 (Pm.Daemon.TwoRun.ExC05.runsG.map (·.2)) 1 = some 0 :=
+  Pm.Daemon.TwoRun.ExC05.outcomeG
+
+open Pm.Daemon.TwoRun in
+/-- **`passes` is `runX`, and the old hypotheses imply the new ones, for runs that start with no answer pending.**  (`GenRun` /
+    `GoodRun` contain "the client phase does not end the process", so every pass clears `pendingX`, and overwriting an empty list
+    of pending answers is appending to it.)  `toX (p, xs) = ⟨p, xs⟩`. -/
+theorem C05_passes_is_runX (Q : Bytes → Bool) (F : Nat → Bool) (g j : Nat) (PB : List Pm.Dev2.Plug)
+    (hQB : ∀ nb, Q nb = false → ∃ pl ∈ PB, pl.node = some nb) (w w' : W)
+    (l : List ((PassIn × List Pm.Dev2.RxCall) × (PassIn × List Pm.Dev2.RxCall))) (h0 : w.pendingX = []) (h0' : w'.pendingX = []) :
+    (GenRun Q F j PB w w' l → MRel Q F j PB w w' →
+      AlongX (GenX Q F j PB) w w' (l.map fun x => (toX x.1, toX x.2)) ∧
+      passes w (l.map (·.1)) = runX w ((l.map (·.1)).map toX) ∧ passes w' (l.map (·.2)) = runX w' ((l.map (·.2)).map toX)) ∧
+    (GoodRun Q g j w w' l → PassRel Q g j w w' →
+      AlongX (GoodX Q g j) w w' (l.map fun x => (toX x.1, toX x.2)) ∧
+      passes w (l.map (·.1)) = runX w ((l.map (·.1)).map toX) ∧ passes w' (l.map (·.2)) = runX w' ((l.map (·.2)).map toX)) :=
+  ⟨fun h hr => genRun_to_X Q F j PB hQB w w' l h hr h0 h0', fun h hr => goodRun_to_X Q g j w w' l h hr h0 h0'⟩
+
+/-- **`C05_observer_typing_counterexample` over `runX`**: the same worlds with no answer pending at the start, the same four passes
+    with their regex answers fed pass by pass.  Client 1 is told `actions=002` in the healthy run and `actions=001` in the sick
+    one. -/
+theorem C05_observer_typing_runX_counterexample :
+    Pm.Daemon.TwoRun.MRel Ex.Q Pm.Daemon.TwoRun.Ex.FB 1 Pm.Daemon.TwoRun.Ex.PBx Pm.Daemon.TwoRun.ExC05.wh0 Pm.Daemon.TwoRun.ExC05.wb0 ∧
+    (cliRec (runX Pm.Daemon.TwoRun.ExC05.wh0 (Pm.Daemon.TwoRun.Ex.runH.map Pm.Daemon.TwoRun.toX)) 1).map (·.toBuf) =
+      some (bstr "304 A: state=connected reconnects=000 actions=002 type= hosts=a1\r\n103 Query complete\r\npowerman> ") ∧
+    (cliRec (runX Pm.Daemon.TwoRun.ExC05.wb0 (Pm.Daemon.TwoRun.Ex.runS.map Pm.Daemon.TwoRun.toX)) 1).map (·.toBuf) =
+      some (bstr "304 A: state=connected reconnects=000 actions=001 type= hosts=a1\r\n103 Query complete\r\npowerman> ") :=
+  ⟨Pm.Daemon.TwoRun.ExC05.relH, Pm.Daemon.TwoRun.ExC05.observer.1, Pm.Daemon.TwoRun.ExC05.observer.2⟩
 
 end Pm.Props.C05
